@@ -3337,8 +3337,12 @@ func (r *Resolver) verifyDNSSEC(ctx context.Context, signer, signed string, resp
 		return
 	}
 
-	// we don't need to verify rrsig questions.
-	if q.Qtype == dns.TypeRRSIG {
+	// The answer to an RRSIG question is a bag of signatures, which carry no
+	// signature of their own: there is nothing to verify them with. That is
+	// true of the answer only. A response that denies the name or the type
+	// makes its case with SOA and NSEC/NSEC3 records like any other denial,
+	// and goes through the same validation.
+	if q.Qtype == dns.TypeRRSIG && len(resp.Answer) > 0 {
 		return false, nil
 	}
 
